@@ -40,13 +40,32 @@ class EM:
                 if pred(f):
                     return f
             raise AnalysisError("ExchangeMap method with role %s not found" % (names,))
-        self.recompute = role(lambda f: False, "_calculate_refsystems")
-        self.recompute_general = m.get("_calculate_refsystems_general", self.recompute)
+        def callees(f: Func):
+            return [m[c.func.attr] for c in calls_in(f.node) if isinstance(c.func, ast.Attribute) and norm(c.func.value) == "self"
+                    and c.func.attr in m and m[c.func.attr] is not f]
+
+        def reads(f: Func, attr: str) -> bool:
+            return any(isinstance(n, ast.Attribute) and attr_chain(n) == attr for n in ast.walk(f.node))
+
+        def iterates(f: Func, attr: str) -> bool:
+            return any((isinstance(n, ast.For) and attr_chain(n.iter) == attr) or
+                       (isinstance(n, ast.comprehension) and attr_chain(n.iter) == attr) for n in ast.walk(f.node))
+        # roles are found by name first and by what the method does second (so that a renamed private helper is still
+        # the same anchor): the map builder stores the equivalences; of its two helpers the one that ranges over the frame
+        # table is the nearest-anchor search and the other the projection; __call__ calls the recomputation (with the
+        # molecule) and the restoration (which reads the stored projections and calls the point restoration)
         self.make_map = role(lambda f: self._stores(f, self.equiv_attr), "_make_map")
-        self.closest = role(lambda f: False, "_find_closest_ref")
-        self.project = role(lambda f: False, "_proyect_point", "_project_point")
-        self.restore_point = role(lambda f: False, "_restore_point")
-        self.restore_mol = role(lambda f: False, "_restore_molecule")
+        mm_callees = callees(self.make_map)
+        self.closest = role(lambda f: f in mm_callees and iterates(f, self.frames_attr), "_find_closest_ref")
+        self.project = role(lambda f: f in mm_callees and f is not self.closest and reads(f, self.frames_attr), "_proyect_point", "_project_point")
+        call_callees = callees(self.call)
+        self.restore_mol = role(lambda f: f in call_callees and (reads(f, self.coords_attr) or reads(f, self.equiv_attr)), "_restore_molecule")
+        self.restore_point = role(lambda f: f in callees(self.restore_mol) and reads(f, self.frames_attr), "_restore_point")
+        self.recompute = role(lambda f: f in call_callees and f is not self.restore_mol and f is not self.make_map, "_calculate_refsystems")
+        self.recompute_general = m.get("_calculate_refsystems_general")
+        if self.recompute_general is None:
+            gen = [f for f in callees(self.recompute) if self._stores(f, self.frames_attr)]
+            self.recompute_general = gen[0] if gen else self.recompute
         for f in (self.init, self.call, self.recompute, self.recompute_general, self.make_map, self.closest,
                   self.project, self.restore_point, self.restore_mol):
             ctx.seen(f)
@@ -234,6 +253,10 @@ def r1_2(ctx: Ctx, rule="R1.2"):
     mm = em.make_map
     st = {attr_chain(s.targets[0].value): s for s in walk_no_nested(mm.node) if isinstance(s, ast.Assign)
           and isinstance(s.targets[0], ast.Subscript) and attr_chain(s.targets[0].value) in (em.equiv_attr, em.coords_attr)}
+    if len(st) != 2:
+        ctx.ob(rule, mm, "anchor/projection bookkeeping", True, "anchor and projection are not recorded by two keyed stores in one "
+               "pass over the target; bookkeeping not decided on this tree", undecided=True, node=mm.node)
+        return
     okm = len(st) == 2 and norm(st[em.equiv_attr].targets[0].slice) == norm(st[em.coords_attr].targets[0].slice)
     if okm:
         anc = norm(st[em.equiv_attr].value)
@@ -386,13 +409,26 @@ def r1_5(ctx: Ctx, rule="R1.5"):
         t = norm(v)
         ok_min = t.startswith("sorted(") and t.endswith(")[0][1]") and "reverse" not in t or \
             (t.startswith("min(") and t.endswith(")[1]"))
+    if not comp:
+        # the candidate list is not built by one comprehension (e.g. an explicit loop): this rule reads the
+        # comprehension form only; anything else is left undecided rather than reported
+        ctx.ob(rule, f, "candidates", True, "the nearest-anchor search is not written as a comprehension over the frames; not decided on this tree",
+               undecided=True, node=f.node)
+        return
     ctx.ob(rule, f, comp[0] if comp else "candidates", ok_iter,
            "the nearest-anchor search ranges over every frame of the reference (no filter)", node=comp[0] if comp else f.node)
     ctx.ob(rule, f, "distance expression", ok_dist,
            "candidates are ordered by the distance between the target atom's position and the anchor atom's position",
            node=comp[0] if comp else f.node)
-    ctx.ob(rule, f, rets[0] if rets else "selection", bool(ok_min),
-           "the anchor with the smallest distance is returned", node=rets[0] if rets else f.node)
+    t_ = norm(rets[0].value) if rets else ""
+    wrong = (t_.startswith("sorted(") and (t_.endswith(")[-1][1]") or "reverse" in t_)) or t_.startswith("max(") \
+        or (t_.startswith("sorted(") and not t_.endswith(")[0][1]"))
+    if ok_min or wrong or not rets:
+        ctx.ob(rule, f, rets[0] if rets else "selection", bool(ok_min),
+               "the anchor with the smallest distance is returned", node=rets[0] if rets else f.node)
+    else:
+        ctx.ob(rule, f, rets[0], True, "selection of the nearest anchor not written as sorted(...)[0][1] / min(...)[1]; not decided on this tree",
+               undecided=True, node=rets[0])
 
 
 # ---------------------------------------------------------------------------
@@ -534,6 +570,11 @@ def _seq_eval(e: ast.AST, env: Dict[str, List[str]], n: int, fn: ast.AST) -> Opt
         return out
     if isinstance(e, ast.BinOp) and isinstance(e.op, ast.Add):
         a, b = _seq_eval(e.left, env, n, fn), _seq_eval(e.right, env, n, fn)
+        # an array of random rows shifted by one point (broadcast) is still an array of random rows
+        for x_, y_, xe_ in ((a, b, e.left), (b, a, e.right)):
+            if x_ is not None and y_ is not None and set(x_) <= {"R"} and len(y_) == 1 and isinstance(xe_, ast.Call) \
+                    and "random" in norm(xe_.func):
+                return list(x_)
         if a is None or b is None:
             # point + vector: a single point
             return None
@@ -560,6 +601,9 @@ def _seq_eval(e: ast.AST, env: Dict[str, List[str]], n: int, fn: ast.AST) -> Opt
                 return None
             return a[:k] + b + a[k:]
         if "random" in norm(e.func):
+            if nm in ("rand", "randn") and len(e.args) == 2 and const_int(e.args[1]) == 3:
+                k = const_int(e.args[0])
+                return None if k is None else ["R"] * max(k, 0)
             return ["R"]
     return None
 
